@@ -137,6 +137,17 @@ def boundary_insertions(gene):
             rb = gene.region_at(b) if b is not None else None
             if ra != rb:
                 out.add((v[3], v[4]))
+        else:
+            # a multi-base substitution / deletion whose first and last replaced bases lie in different regions: it is
+            # keyed by its first base on the + strand and by its last base on the - strand
+            ref = v[4].split(">")[0] if ">" in v[4] else (v[4][3:].split("ins")[0] if v[4].startswith("del") else "")
+            if len(ref) > 1:
+                a = gene.ref_to_chr.get(v[3])
+                b = gene.ref_to_chr.get(v[3] + len(ref) - 1)
+                ra = gene.region_at(a) if a is not None else None
+                rb = gene.region_at(b) if b is not None else None
+                if ra != rb:
+                    out.add((v[3], v[4]))
     return out
 
 
@@ -167,7 +178,10 @@ def oracle(doc, genes):
                 seen[k] = mn
         for k, v in keys.items():
             if len(v) > 1:
-                why.append(f"{tag}: major alleles {v} share structure {k[0]} and core-variant set")
+                if any("#" in x for x in v) and any("#" not in x for x in v):
+                    why.append(f"{tag}: PARTIAL-DUPLICATE major alleles {v} share structure {k[0]} and core-variant set (a partial allele derived for a fusion repeats a database allele of the same fusion)")
+                else:
+                    why.append(f"{tag}: major alleles {v} share structure {k[0]} and core-variant set")
         # reachability of every database allele that is not a bare left fusion
         for raw, a in doc["alleles"].items():
             if raw in ("random", "groups") or a.get("ignored", False):
@@ -216,7 +230,10 @@ def oracle(doc, genes):
                         out.setdefault(str(key), set()).add((mn if "#" not in mn else "#", tuple(v)))
                 return {k_: sorted(v_) for k_, v_ in out.items()}
             if drop and (first_diff(a2, b2) is None or first_diff(flat(a2), flat(b2)) is None):
-                why.append(f"{list(genes.values())[0].name}: BOUNDARY-INSERTION catalogue differs between builds at {d} (insertion(s) {sorted(drop)[:3]} sit on a region boundary and are anchored to different regions on the two strands)")
+                if all(o.startswith("ins") for _, o in drop):
+                    why.append(f"{list(genes.values())[0].name}: BOUNDARY-INSERTION catalogue differs between builds at {d} (insertion(s) {sorted(drop)[:3]} sit on a region boundary and are anchored to different regions on the two strands)")
+                else:
+                    why.append(f"{list(genes.values())[0].name}: BOUNDARY-SPAN catalogue differs between builds at {d} (variant(s) {sorted(drop)[:3]} replace bases of two regions and are assigned to the first one on the + strand, to the last one on the - strand)")
             else:
                 why.append(f"{list(genes.values())[0].name}: catalogue differs between builds at {d}")
     return why
@@ -302,7 +319,7 @@ def tie(ctx):
             why = oracle(docs, genes)
             if why:
                 for w in why[:6]:
-                    sig = "c09:build_dependence_boundary_insertion" if "BOUNDARY-INSERTION" in w else "c09:" + re.sub(r"[0-9'\[\]]", "", w.split(":", 1)[1].strip())[:40]
+                    sig = "c09:build_dependence_boundary_insertion" if "BOUNDARY-INSERTION" in w else "c09:build_dependence_boundary_span" if "BOUNDARY-SPAN" in w else "c09:partial_allele_duplicates_fusion_allele" if "PARTIAL-DUPLICATE" in w else "c09:" + re.sub(r"[0-9'\[\]]", "", w.split(":", 1)[1].strip())[:40]
                     violations.append({"why": w, "input": {"db": gd}, "signature": sig})
     outs = lib.driver_batch(reqs)
     fam = {"catalogue": {"cases": 0, "disagreements": []}}
@@ -349,6 +366,6 @@ def search(ctx, hints):
             why = oracle(docs, genes)
             if why:
                 for w in why[:6]:
-                    sig = "c09:build_dependence_boundary_insertion" if "BOUNDARY-INSERTION" in w else "c09:" + re.sub(r"[0-9'\[\]]", "", w.split(":", 1)[1].strip())[:40]
+                    sig = "c09:build_dependence_boundary_insertion" if "BOUNDARY-INSERTION" in w else "c09:build_dependence_boundary_span" if "BOUNDARY-SPAN" in w else "c09:partial_allele_duplicates_fusion_allele" if "PARTIAL-DUPLICATE" in w else "c09:" + re.sub(r"[0-9'\[\]]", "", w.split(":", 1)[1].strip())[:40]
                     violations.setdefault(sig, {"why": w, "input": {"db": gd}, "signature": sig})
     return {"violations": list(violations.values())[:5], "databases_searched": len(dbs)}
